@@ -431,3 +431,190 @@ Module Sb.
   Definition returned (s : state) : bool := match pcr s with PRet => true | _ => false end.
   Definition done (s : state) : bool := returned s && terminated s.
 End Sb.
+
+(* ================================================================== MultiplexedSource
+   multiplexedsource.go:
+     Run(): for { if IsTerminating {return}                              PCheck -> point 20 (mux.after_check)
+                  connectSources()                                       PLock / PLoop / PInit
+                                                                                -> point 21 (mux.before_sleep)
+                  time.Sleep(sourceReconnectDelay) }                     PSleep
+     connectSources(): sourcesLock.Lock(); defer Unlock()
+                  if IsTerminating {return}                              PLock  -> point 22 (mux.connect_checked)
+                  for idx, factory := range factories {                  PLoop idx
+                    if sources[idx] == nil || sources[idx].IsTerminating() {
+                       newSrc := factory(wrapper)                               -> point 23 (mux.before_lockedinit)
+                       err := LockedInit{ sources[idx] = newSrc; go newSrc.Run() }   PInit idx k
+                       if err != nil { s.Shutdown(err) } (a no-op: already shut down)  -> point 24 (mux.after_lockedinit)
+                    } }
+     wrapper (runs on the inner source's goroutine):
+                  handlerLock.Lock()                                     IWant   -> point 25 (mux.handler_locked)
+                  err := handler(blk)                                    ILocked / IInH
+                  handlerLock.Unlock()                                           -> point 26 (mux.handler_unlocked)
+                  if err != nil { s.Shutdown(err) }; return err          IUnl / ISdBusy / IFailRet
+     OnTerminating callback: sourcesLock.Lock(); for each non-nil sources[i]: Shutdown(nil); Unlock()
+   sourcesLock is held by the Run thread exactly while it is at PLoop / PInit; the callback takes it
+   for one atomic step (inner Shutdowns do not block), so it is enabled iff Run is not at PLoop / PInit.
+   Inner source k (abstract, thread TIn k) is created by a factory (INew), started by `go newSrc.Run()`
+   (IIdle), and delivers its script through the wrapper; a handler error makes it shut itself down. *)
+Module Mx.
+  Inductive ipc :=
+  | INew | IIdle | IWant (b : nat) (ok : bool) | ILocked (b : nat) (ok : bool) | IInH (b : nat) (ok : bool)
+  | IUnl (b : nat) (ok : bool) | ISdBusy | IFailRet | IRet.
+  Record inner := mki { i_slot : nat; i_term : bool; i_pc : ipc; i_script : list iev }.
+  Inductive pc := PCheck | PLock | PLoop (idx : nat) | PInit (idx k : nat) | PSleep | PRet.
+  Inductive xstate := XIdle | XBusy | XDone.
+  Inductive tid := TRun | TX | TIn (k : nat).
+
+  Record state := mk {
+    pcr : pc;   (* MultiplexedSource.Run thread *)
+    pcx : xstate;   (* external Shutdown thread *)
+    sdst : option sdstage;   (* stage of the one effective Shutdown() *)
+    hholder : option nat;   (* handlerLock: the inner source whose goroutine holds it *)
+    sources : list (option nat);   (* s.sources: per factory slot, the inner source registered there *)
+    inners : list inner;   (* every inner source created so far (thread TIn k runs number k) *)
+    supply : list (list iev);   (* scripts of the sources the factories will create next *)
+    log : list ev;
+    hbegun : nat;
+    hactive : nat;   (* ghost: handler calls in progress *)
+    overlap : bool;   (* ghost: a handler call began while another one was in progress *)
+    failed : bool }.   (* ghost: a handler call returned an error *)
+  Definition set_pcr (s : state) v := mk v (pcx s) (sdst s) (hholder s) (sources s) (inners s) (supply s) (log s) (hbegun s) (hactive s) (overlap s) (failed s).
+  Definition set_pcx (s : state) v := mk (pcr s) v (sdst s) (hholder s) (sources s) (inners s) (supply s) (log s) (hbegun s) (hactive s) (overlap s) (failed s).
+  Definition set_sdst (s : state) v := mk (pcr s) (pcx s) v (hholder s) (sources s) (inners s) (supply s) (log s) (hbegun s) (hactive s) (overlap s) (failed s).
+  Definition set_hholder (s : state) v := mk (pcr s) (pcx s) (sdst s) v (sources s) (inners s) (supply s) (log s) (hbegun s) (hactive s) (overlap s) (failed s).
+  Definition set_sources (s : state) v := mk (pcr s) (pcx s) (sdst s) (hholder s) v (inners s) (supply s) (log s) (hbegun s) (hactive s) (overlap s) (failed s).
+  Definition set_inners (s : state) v := mk (pcr s) (pcx s) (sdst s) (hholder s) (sources s) v (supply s) (log s) (hbegun s) (hactive s) (overlap s) (failed s).
+  Definition set_supply (s : state) v := mk (pcr s) (pcx s) (sdst s) (hholder s) (sources s) (inners s) v (log s) (hbegun s) (hactive s) (overlap s) (failed s).
+  Definition set_log (s : state) v := mk (pcr s) (pcx s) (sdst s) (hholder s) (sources s) (inners s) (supply s) v (hbegun s) (hactive s) (overlap s) (failed s).
+  Definition set_hbegun (s : state) v := mk (pcr s) (pcx s) (sdst s) (hholder s) (sources s) (inners s) (supply s) (log s) v (hactive s) (overlap s) (failed s).
+  Definition set_hactive (s : state) v := mk (pcr s) (pcx s) (sdst s) (hholder s) (sources s) (inners s) (supply s) (log s) (hbegun s) v (overlap s) (failed s).
+  Definition set_overlap (s : state) v := mk (pcr s) (pcx s) (sdst s) (hholder s) (sources s) (inners s) (supply s) (log s) (hbegun s) (hactive s) v (failed s).
+  Definition set_failed (s : state) v := mk (pcr s) (pcx s) (sdst s) (hholder s) (sources s) (inners s) (supply s) (log s) (hbegun s) (hactive s) (overlap s) v.
+
+
+  Definition init (nslots : nat) (supply : list (list iev)) : state :=
+    mk PCheck XIdle None None (repeat None nslots) [] supply [] 0 0 false false.
+
+  Definition terminating (s : state) : bool :=
+    match sdst s with Some SCb | Some STerm | Some SDone => true | _ => false end.
+  Definition terminated (s : state) : bool := match sdst s with Some SDone => true | _ => false end.
+  Definition emit (s : state) e := set_log s (e :: log s).
+  Definition holds_slock (s : state) : bool := match pcr s with PLoop _ | PInit _ _ => true | _ => false end.
+
+  Fixpoint upd {A} (l : list A) (k : nat) (f : A -> A) : list A :=
+    match l, k with
+    | [], _ => []
+    | x :: r, O => f x :: r
+    | x :: r, S k' => x :: upd r k' f
+    end.
+  Definition set_i_term (i : inner) := mki (i_slot i) true (i_pc i) (i_script i).
+  Definition set_i_pc (p : ipc) (i : inner) := mki (i_slot i) (i_term i) p (i_script i).
+  Definition set_i_script (sc : list iev) (i : inner) := mki (i_slot i) (i_term i) (i_pc i) sc.
+  (* go newSrc.Run(): a created, not yet started source starts running *)
+  Definition start_inner (i : inner) : inner := match i_pc i with INew => set_i_pc IIdle i | _ => i end.
+  Definition inner_term (s : state) (k : nat) : bool :=
+    match nth_error (inners s) k with Some i => i_term i | None => true end.
+
+  (* inner source k .Shutdown(): atomic; logs EDown the first time *)
+  Definition shut_inner (k : nat) (s : state) : state :=
+    if inner_term s k then s else emit (set_inners s (upd (inners s) k set_i_term)) (EDown k).
+  Fixpoint shut_all (l : list (option nat)) (s : state) : state :=
+    match l with
+    | [] => s
+    | Some k :: r => shut_all r (shut_inner k s)
+    | None :: r => shut_all r s
+    end.
+
+  (* one step of the effective Shutdown() call, whoever performs it *)
+  Definition sd_advance (s : state) : state :=
+    match sdst s with
+    | Some SClose => set_sdst s (Some SCb)
+    | Some SCb => if holds_slock s then s                                 (* callback blocked on sourcesLock *)
+                  else set_sdst (shut_all (sources s) s) (Some STerm)
+    | Some STerm => set_sdst s (Some SDone)
+    | _ => s
+    end.
+
+  Definition step_run (s : state) : state :=
+    match pcr s with
+    | PCheck => if terminating s then emit (set_pcr s PRet) ERet else emit (set_pcr s PLock) (EPoint 20)
+    | PLock => if terminating s then emit (set_pcr s PSleep) (EPoint 21) else emit (set_pcr s (PLoop 0)) (EPoint 22)
+    | PLoop idx =>
+        match nth_error (sources s) idx with
+        | None => emit (set_pcr s PSleep) (EPoint 21)                     (* loop over: unlock *)
+        | Some cur =>
+            if match cur with None => true | Some k => inner_term s k end
+            then let k := length (inners s) in
+                 let sc := match supply s with [] => [] | x :: _ => x end in
+                 emit (emit (set_pcr (set_supply (set_inners s (inners s ++ [mki idx false INew sc])) (tl (supply s)))
+                                     (PInit idx k)) (EFactory idx 0)) (EPoint 23)
+            else set_pcr s (PLoop (S idx))
+        end
+    | PInit idx k =>
+        if terminating s then emit (set_pcr s (PLoop (S idx))) (EPoint 24)     (* LockedInit refuses: never started *)
+        else emit (set_pcr (set_inners (set_sources s (upd (sources s) idx (fun _ => Some k)))
+                                       (upd (inners s) k start_inner)) (PLoop (S idx))) (EPoint 24)
+    | PSleep => set_pcr s PCheck
+    | PRet => s
+    end.
+
+  Definition set_inner (s : state) (k : nat) (f : inner -> inner) := set_inners s (upd (inners s) k f).
+
+  Definition step_inner (k : nat) (s : state) : state :=
+    match nth_error (inners s) k with
+    | None => s
+    | Some i =>
+        match i_pc i with
+        | INew => s
+        | IIdle =>
+            if i_term i then set_inner s k (set_i_pc IRet)
+            else match i_script i with
+                 | [] => s
+                 | IBlock b ok :: r => set_inner s k (fun i => set_i_pc (IWant b ok) (set_i_script r i))
+                 | IFail :: r => shut_inner k (set_inner s k (set_i_script r))
+                 end
+        | IWant b ok =>
+            match hholder s with
+            | Some _ => s                                                       (* blocked on handlerLock *)
+            | None => emit (set_hholder (set_inner s k (set_i_pc (ILocked b ok))) (Some k)) (EPoint 25)
+            end
+        | ILocked b ok =>
+            let s1 := set_inner s k (set_i_pc (IInH b ok)) in
+            let s2 := set_overlap s1 (overlap s || Nat.ltb 0 (hactive s)) in
+            emit (set_hactive (set_hbegun s2 (S (hbegun s))) (S (hactive s))) (EHBegin k b)
+        | IInH b ok =>
+            let s1 := set_inner s k (set_i_pc (IUnl b ok)) in
+            let s2 := set_failed (set_hactive (set_hholder s1 None) (hactive s - 1)) (failed s || negb ok) in
+            emit (emit s2 (EHEnd k b ok)) (EPoint 26)
+        | IUnl b ok =>
+            if ok then set_inner s k (set_i_pc IIdle)
+            else match sdst s with
+                 | None => set_sdst (set_inner s k (set_i_pc ISdBusy)) (Some SClose)   (* s.Shutdown(err): once.Do won *)
+                 | Some _ => set_inner s k (set_i_pc IFailRet)
+                 end
+        | ISdBusy =>
+            let s1 := sd_advance s in
+            if terminated s1 then set_inner s1 k (set_i_pc IFailRet) else s1
+        | IFailRet => shut_inner k (set_inner s k (set_i_pc IIdle))              (* the wrapper returned the error *)
+        | IRet => s
+        end
+    end.
+
+  Definition step_x (s : state) : state :=
+    match pcx s with
+    | XIdle => match sdst s with
+               | None => set_sdst (set_pcx s XBusy) (Some SClose)
+               | Some _ => set_pcx s XDone
+               end
+    | XBusy => let s1 := sd_advance s in if terminated s1 then set_pcx s1 XDone else s1
+    | XDone => s
+    end.
+
+  Definition step (s : state) (t : tid) : state :=
+    match t with TRun => step_run s | TX => step_x s | TIn k => step_inner k s end.
+
+  Definition returned (s : state) : bool := match pcr s with PRet => true | _ => false end.
+  Definition done (s : state) : bool := returned s && terminated s.
+  Definition started (i : inner) : bool := match i_pc i with INew => false | _ => true end.
+  Definition i_returned (i : inner) : bool := match i_pc i with INew | IRet => true | _ => false end.
+End Mx.
